@@ -238,7 +238,7 @@ func runWorker(p Prop, seed uint64, tier string, w, nw int, from, to int, outPat
 				sc := p.Gen(int(c))
 				v := Violation{Property: p.ID(), Class: p.ID() + "/hang-without-seam", Detail: "no progress for 60 s inside one scenario (loop that never reaches a Read/Write/Log call)"}
 				res.Violations = append(res.Violations, foundViolation{Index: int(c), V: v, Scenario: sc.JSON()})
-				res.ClassCount[v.Class]++
+				res.ClassCount[v.Class+"|"]++
 				flush(false)
 				os.Exit(0)
 			}
